@@ -588,6 +588,30 @@ def oracle_conv(ctx, budget):
                 if not np.all(np.abs(np.asarray(ra[1]) - exp) <= tol):
                     ctx.fail('pad_edges:not-affine-equivariant', f'pad_edges(N={n}, pad={p}, extrapolate_window={ew}) of {a}*y+{b} is not {a}*pad_edges(y)+{b}', case)
                     found += 1
+    # C18_convolve_extrapolate_linear on the implementation (float fit: relative tolerance)
+    for n in range(2, 9 if budget == 1 else 17):
+        for m in sorted({1, 2, 3, n, n + 1, 2 * n + 1}):
+            for ew in [None, 1, 2, n + 3]:
+                y1 = np.array([mrng.randint(-20, 20) for _ in range(n)], dtype=float)
+                y2 = np.array([mrng.randint(-20, 20) for _ in range(n)], dtype=float)
+                kk = np.array([mrng.randint(-3, 9) for _ in range(m)], dtype=float)
+                a, b = mrng.choice([-3, -1, 0, 2, 5]), mrng.choice([-2, 1, 4])
+                kw = {} if ew is None else {'extrapolate_window': ew}
+                r1, r2, r = (call(utils.padded_convolve, v, kk, mode='extrapolate', **kw) for v in (y1, y2, a * y1 + b * y2))
+                ctx.case(('o-conv-extlin', n, m, str(ew)), nontrivial=True, kind='oracle:conv:extrapolate-linear')
+                case = {'kind': 'conv', 'data': (a * y1 + b * y2).tolist(), 'kernel': kk.tolist(), 'mode': 'extrapolate',
+                        'extrapolate_window': ew, 'y1': y1.tolist(), 'y2': y2.tolist(), 'a': a, 'b': b}
+                sts = {r1[0], r2[0], r[0]}
+                if sts == {'err'} and r1[1] == r[1] == r2[1]:
+                    continue
+                bad = sts != {'ok'}
+                if not bad:
+                    exp = a * np.asarray(r1[1]) + b * np.asarray(r2[1])
+                    scale = max(1.0, float(np.max(np.abs(r1[1]))) * abs(a) + float(np.max(np.abs(r2[1]))) * abs(b))
+                    bad = np.shape(r[1]) != np.shape(exp) or not np.all(np.abs(np.asarray(r[1]) - exp) <= 1e-8 * scale)
+                if bad:
+                    ctx.fail('padded_convolve:extrapolate-not-linear', f'padded_convolve(N={n}, M={m}, extrapolate_window={ew}) of {a}*y1 + {b}*y2 is not {a}*out1 + {b}*out2', case)
+                    found += 1
     # C18_convolve_index_modes_linear on the implementation: exact integer data, enumerated sizes, the four
     # index-function modes; a private generator so that the streams above and below are unchanged
     lrng = _random.Random(18180)
